@@ -228,8 +228,20 @@ func (s *session) commit(r *sessionRecord, trivial bool) (err error) {
 		// manifest journal writer not yet created, create one
 		err = s.newManifest(r, nv)
 	} else if s.manifest.Size() >= s.o.GetMaxManifestFileSize() {
-		// pass nil sessionRecord to avoid over-reference table file
-		err = s.newManifest(nil, nv)
+		// pass a table-less sessionRecord to avoid over-reference table file,
+		// but keep the journal/sequence numbers and compaction pointers of r.
+		nr := &sessionRecord{}
+		if r.has(recJournalNum) {
+			nr.setJournalNum(r.journalNum)
+		}
+		if r.has(recSeqNum) {
+			nr.setSeqNum(r.seqNum)
+		}
+		for _, cp := range r.compPtrs {
+			// the snapshot record is filled from the session's pointers
+			s.setCompPtr(cp.level, cp.ikey)
+		}
+		err = s.newManifest(nr, nv)
 	} else {
 		err = s.flushManifest(r)
 	}
